@@ -247,6 +247,19 @@ var cliEnabled = true
 // this tree: the C18 "parse" run kind is then not generated.
 var knobEnabled = true
 
+// knobEntangled: the tree computes with DefaultBlockSize; only larger powers of
+// two are used as knob values then.
+var knobEntangled = false
+var entangledKnobs = []int{64, 128, 256, 512, 2048}
+
+func (r *rng) knob(from []int) int {
+	k := from[r.n(len(from))]
+	if knobEntangled && k != 0 {
+		k = entangledKnobs[r.n(len(entangledKnobs))]
+	}
+	return k
+}
+
 var cliFlagSets = [][]string{{"-pb"}, {"-d"}, {"-r"}, {"-e"}, {"-p", "-e"}, {"-d", "-r"}, {"-pb", "-d"}, {"-p", "-e", "-r", "-d"}, {"-pb", "-e", "-r"}, {"-p"}, {}}
 var cliVersions = []string{"", "", "", "7.4", "7.0", "5.6", "7.2"}
 
@@ -330,7 +343,7 @@ func genC11CLI(c *corpus, r *rng, seed uint64) *scn.Scenario {
 	if s.Sched.Mode == 3 && s.Sched.SiteClass != "sync" && r.chance(50) {
 		s.Sched.SiteClass = "cli"
 	}
-	s.Knob = knobs[r.n(len(knobs))]
+	s.Knob = r.knob(knobs)
 	s.Faults = scn.Faults{Seed: r.next(), GCSteps: r.gcSteps(est)}
 	return s
 }
@@ -514,7 +527,7 @@ func genC11(c *corpus, seed uint64) *scn.Scenario {
 		ntasks = s.Workers + 2
 	}
 	s.Sched = r.schedule(est, ntasks)
-	s.Knob = knobs[r.n(len(knobs))]
+	s.Knob = r.knob(knobs)
 	s.Faults = scn.Faults{Seed: r.next(), GCSteps: r.gcSteps(est)}
 	return s
 }
@@ -753,7 +766,7 @@ func genC13(c *corpus, seed uint64) *scn.Scenario {
 		s.History = append(s.History, op)
 	}
 	s.Sched = scn.Sched{Mode: 0, Seed: r.next()}
-	s.Knob = knobs[r.n(len(knobs))]
+	s.Knob = r.knob(knobs)
 	s.Faults = scn.Faults{Seed: r.next()}
 	return s
 }
@@ -788,7 +801,7 @@ func genC18(c *corpus, seed uint64) *scn.Scenario {
 			}
 			s.Tasks = append(s.Tasks, task)
 		}
-		s.Knob = parseKnobs[r.n(len(parseKnobs))]
+		s.Knob = r.knob(parseKnobs)
 		s.Sched = r.schedule(estSteps(s.Inputs, s.Tasks), nt)
 		s.Faults = scn.Faults{Seed: r.next()}
 		return s
